@@ -183,7 +183,9 @@ def check_json(ctx):
     fe = base.methods['export']
     rep.functions.add(fe.qualname)
     d = [c for c in calls_in(fe.node) if u(c.func) == 'json.dump']
-    okd = len(d) == 1 and [u(a) for a in d[0].args] == [fe.params()[2], 'f'] and u(get_kw(d[0], 'default')) == 'self.to_json'
+    wvars = [u(i.optional_vars) for s in stmts_in(fe.node.body) if isinstance(s, ast.With) for i in s.items if i.optional_vars is not None and isinstance(i.context_expr, ast.Call)
+             and u(i.context_expr.func) == 'maybe_open' and u(i.context_expr.args[0]) == fe.params()[1]]
+    okd = len(d) == 1 and len(wvars) == 1 and [u(a) for a in d[0].args] == [fe.params()[2], wvars[0]] and u(get_kw(d[0], 'default')) == 'self.to_json'
     rep.add('E3', fe.site(d[0] if d else None), 'JSON formats are produced by json.dump of the results with the exporter\'s to_json as the default hook (valid JSON by construction)', okd, expected='json.dump(results, f, default=self.to_json, **opts)',
             found=[u(c) for c in d], stmt='json dump')
     bt = base.methods['to_json']
@@ -219,8 +221,9 @@ def check_json(ctx):
     rep.add('E4', ft.site(), 'JSON taxon carries name, rank, NCBI id and threshold (the CSV taxon columns)', tf is not None and {'name', 'rank', 'ncbi_id', 'distance_threshold'} <= set(tf), expected='name, rank, ncbi_id, distance_threshold', found=tf, stmt='json taxon columns')
     fr = reg.get('QueryResults')
     body = [u(s) for s in fr.node.body] if fr else []
-    rep.add('E4', fr.site() if fr else je.site(), 'JSON results: the shallow attrs dict of the results (items kept in order), parameters omitted', fr is not None and f'data = asdict({fr.params()[1]}, recurse=False)' in body and "del data['params']" in body
-            and body[-1] == 'return data' and len(body) <= 4, expected="asdict(results, recurse=False); del data['params']", found=body, stmt='json results image')
+    dn = u(fr.node.body[-1].value) if fr and isinstance(fr.node.body[-1], ast.Return) else None
+    rep.add('E4', fr.site() if fr else je.site(), 'JSON results: the shallow attrs dict of the results (items kept in order), parameters omitted', fr is not None and f'{dn} = asdict({fr.params()[1]}, recurse=False)' in body and f"del {dn}['params']" in body
+            and len(body) <= 4, expected="asdict(results, recurse=False); del data['params']", found=body, stmt='json results image')
     # GenomeMatch / ClassifierResult fall to the generic converter: distance + genome are attrs fields
     gmc = m.cls('gambit.classify.GenomeMatch')
     rep.add('E4', gmc.site(), 'closest-genome entries expose genome, distance and matched taxon (attrs fields, generic conversion)', list(gmc.annotations)[:3] == ['genome', 'distance', 'matched_taxon'], expected=['genome', 'distance', 'matched_taxon'],
@@ -273,7 +276,18 @@ def check_archive(ctx):
     rep.add('E5', rf.site(), 'the whole document is structured back into QueryResults', len(st) == 1 and [u(a) for a in st[0].args] == [rf.params()[1], 'QueryResults'], expected='self._converter.structure(data, QueryResults)', found=[u(c) for c in st],
             stmt='structure')
     gq = [s for s in stmts_in(rf.node.body) if isinstance(s, ast.Assign) and u(s.targets[0]) == 'self._current_genomeset' and not is_none(s.value)]
-    okg = len(gq) == 1 and 'filter_by(key=gset_key, version=gset_version)' in u(gq[0].value) and u(gq[0].value).endswith('.one()')
+    okg = False
+    if len(gq) == 1 and u(gq[0].value).endswith('.one()'):
+        fb = [c for c in calls_in(gq[0].value) if callee_attr(c) == 'filter_by']
+        if len(fb) == 1:
+            kws = {k.arg: k.value for k in fb[0].keywords}
+
+            def src_of(e):
+                if isinstance(e, ast.Name):
+                    dd = reaching_def(rf.node, e.id, gq[0])
+                    e = def_value(dd) if dd not in (None, PARAM, AMBIGUOUS) else None
+                return u(e)
+            okg = set(kws) == {'key', 'version'} and src_of(kws['key']) == f"{rf.params()[1]}['genomeset']['key']" and src_of(kws['version']) == f"{rf.params()[1]}['genomeset']['version']"
     rep.add('E5', rf.site(gq[0] if gq else None), 'the genome set is found by (key, version), exactly one match required', okg, expected='filter_by(key=..., version=...).one()', found=[u(g.value) for g in gq], stmt='genome set lookup')
     # fields of the result graph not reduced: attrs classes handled by the generic converter on both sides
     for q in ('gambit.query.QueryResults', 'gambit.query.QueryResultItem', 'gambit.query.QueryInput', 'gambit.query.QueryParams', 'gambit.classify.ClassifierResult', 'gambit.classify.GenomeMatch'):
